@@ -1,7 +1,7 @@
 """C08 - separators affect only reading and printing of numbers. DESIGN.md 3.C08."""
 
 from . import gen_expr as ge
-from . import lex, mon
+from . import c10, lex, mon
 from .numfmt import SEP_CONFIGS, check_print, render_literal
 
 SPEC = {
@@ -18,7 +18,7 @@ SPEC = {
 NUMS = ['1', '2', '5', '10', '12.5', '99.99', '100', '250', '1000', '1234.56', '0.5', '1000000', '19.9', '3', '12345.678', '0.001', '2500', '7.25', '1234567.891',
         '1234567890123456789012', '123456789012345678901.5', '98765432109876543210987654321']       # the last three: 21-29 integer digits
 PCTS = ['5', '12.5', '150', '0.5', '1234.5', '2000', '1250000', '1000.25', '99999.9']
-INTS = ['1', '2', '12', '30', '365', '1000', '2500', '10000', '1234567']
+INTS = ['1', '2', '12', '30', '365', '1000', '2500', '10000', '1234567', '547500', '36500000']
 UNITS = [('km', 'mile'), ('mile', 'km'), ('kg', 'lb'), ('stone', 'kg'), ('gb', 'mb'), ('mb', 'byte'), ('inch', 'cm'), ('yard', 'm'), ('tonne', 'kg'), ('oz', 'g'),
          ('kb', 'bit'), ('ft', 'mm'), ('cm', 'km'), ('mg', 'kg'), ('furlong', 'mile'), ('lb', 'oz'), ('tb', 'gb'), ('m', 'ft')]
 
@@ -145,6 +145,10 @@ def print_problem(slot, sep, fmt):
         if not out.startswith('%'):
             return 'no % prefix'
         return check_print(mon.fval(slot), out[1:], sep, fmt['digits'], fmt['rm'], fmt['round'])
+    if k == 'duration':
+        # the counts of a span are whole numbers printed without grouping, in every convention (C10)
+        want = c10.expected_print(v['secs'], 'en')
+        return None if out == want else 'expected %r' % want
     if k == 'money':
         cur = lex.currencies().get(v['code'].lower())
         body = out.replace(cur['symbol'], '').strip()
@@ -171,6 +175,7 @@ def run_shard(ctx):
         setup.append({'op': 'add_rule', 'c': c, 'lang': 'en', 'patterns': ['{NUMBER:n} per %s' % render_literal('1000', sp, True), '{NUMBER:n} half %s' % render_literal('0.5', sp)],
                       'spec': {'name': 'per', 'kind': 'encode', 'weights': {'n': 3}}})
     drv.run(setup)
+    drv.run([{'op': 'session_new', 's': 1}, {'op': 'session_set_language', 's': 1, 'lang': 'en'}])
     while not ctx.out_of_time():
         # literals inside registered patterns follow the convention too
         pp = []
@@ -229,6 +234,25 @@ def run_shard(ctx):
             rs = mon.run_lines(drv, cfg, items)
             for i, r in zip(idx, rs):
                 results[(i, sep)] = r
+            # one Session object lives through all the convention changes of the shard: a text evaluated through it reads its
+            # literals in the convention that is configured now, exactly like a fresh evaluation
+            pick = rng.sample(range(len(items)), min(8, len(items)))
+            sops = mon.gh.config_ops(cfg) + [o for k_ in pick for o in ({'op': 'session_set_text', 's': 1, 'text': items[k_][1]}, {'op': 'execute_session', 's': 1})]
+            srs = drv.run(sops)[len(mon.gh.config_ops(cfg)):]
+            for n_, k_ in enumerate(pick):
+                sr = srs[2 * n_ + 1]
+                if 'lines' not in sr and 'panic' not in sr:
+                    drv.run([{'op': 'session_new', 's': 1}, {'op': 'session_set_language', 's': 1, 'lang': 'en'}])      # the driver was restarted
+                    break
+                res.cases += 1
+                res.count('class:through-a-long-lived-session')
+                a_, b_ = mon.last_slot(sr), mon.last_slot(rs[k_])
+                if value(a_) == value(b_) and (a_ or {}).get('out') == (b_ or {}).get('out'):
+                    res.count('ok')
+                else:
+                    res.violation('sep:long-lived-session', 'under %r the text %r gives %s through a fresh evaluation and %s through a Session object that has lived through other conventions'
+                                  % (sep, items[k_][1], mon.describe(b_), mon.describe(a_)),
+                                  {'lang': 'en', 'text': items[k_][1], 'conventions': [sep], 'ops': [{'op': 'session_new', 's': 1}, {'op': 'session_set_language', 's': 1, 'lang': 'en'}] + sops[:len(mon.gh.config_ops(cfg)) + 2 * n_ + 2]})
         for i, (cls, items) in enumerate(structs):
             s1, s2 = pairs[i]
             a, b = mon.last_slot(results[(i, s1)]), mon.last_slot(results[(i, s2)])
